@@ -120,3 +120,25 @@ static void mf_extreme(vf_rng *r, char const *wsfx, int ndraws)
         }
     }
 }
+
+/* the documented scratch-size macro must be usable with an expression argument (seeded change C13-E: a "factored" form
+   lost the parentheses around its last n, so A_PID_FUZZY_BFUZZ(2 + 1) gave 97 bytes instead of 144) */
+static void bfuzz_macro_hygiene(char const *wsfx)
+{
+    for (unsigned n = 1; n <= 9; ++n)
+    {
+        unsigned const n0 = n - 1, one = 1;
+        size_t const want = sizeof(unsigned int) * n * 2 + sizeof(a_real) * n * (2 + n);
+        size_t const g1 = A_PID_FUZZY_BFUZZ(n0 + one), g2 = A_PID_FUZZY_BFUZZ(n0 + 1u), g3 = A_PID_FUZZY_BFUZZ(n ? n0 + 1u : 0u), g4 = A_PID_FUZZY_BFUZZ(n);
+        ++vf.evals;
+        VF_COUNT("bfuzz-macro-with-expression-argument");
+        if (g1 != want || g2 != want || g3 != want || g4 != want)
+        {
+            char key[96];
+            snprintf(key, sizeof key, "pid_fuzzy/scratch-size-macro-wrong-for-expression-argument%s", wsfx);
+            vf_viol(key, "n = %u: A_PID_FUZZY_BFUZZ(n0 + one) = %zu, (n0 + 1u) = %zu, (n ? n0 + 1u : 0u) = %zu, (n) = %zu; documented size 2n*sizeof(unsigned) + n(n+2)*sizeof(a_real) = %zu",
+                    n, g1, g2, g3, g4, want);
+            return;
+        }
+    }
+}
